@@ -31,6 +31,51 @@ func runC11(c *Ctx) {
 		return
 	}
 	persisted := []string{"root", "appendPath", "size"}
+	// ---- R13 the pure calculators leave their inputs alone. AppendPath() hands out the tree's own
+	// slice (R5 keeps the tree from rewriting it in place); a calculator that is given that slice
+	// and stores into it — or into a re-slice of it that it then returns — rewrites the live tree's
+	// append path behind its back.
+	{
+		nCalc := 0
+		for _, key := range []string{"pkg/trie/rmt.CalculateRootFromAppendPath", "pkg/trie/rmt.CalculateRoot", "pkg/trie/rmt.CalculateRootFromUpdateData", "pkg/trie/rmt.CalculateRootFromRightWitness", "pkg/trie/rmt.VerifyProof", "pkg/trie/rmt.VerifyRightWitness"} {
+			fn := p.Fn(key)
+			if fn == nil || len(fn.Blocks) == 0 {
+				continue
+			}
+			nCalc++
+			bad := ""
+			for _, g := range funcAndHelpers(fn) {
+				for _, b := range g.Blocks {
+					for _, in := range b.Instrs {
+						st, ok := in.(*ssa.Store)
+						if !ok {
+							continue
+						}
+						ia, ok := st.Addr.(*ssa.IndexAddr)
+						if !ok {
+							continue
+						}
+						v := ia.X
+						for i := 0; i < 6; i++ {
+							v = valueRoot(stripConv(v))
+							if sl, ok := v.(*ssa.Slice); ok {
+								v = sl.X
+								continue
+							}
+							break
+						}
+						if prm, ok := v.(*ssa.Parameter); ok && prm.Parent() == fn {
+							if _, isSlice := prm.Type().Underlying().(*types.Slice); isSlice {
+								bad = "stores into parameter " + prm.Name() + " at " + p.InstrPos(st)
+							}
+						}
+					}
+				}
+			}
+			c.Require("C11.R13 calculators-leave-inputs-alone", key, p.Pos(fn.Pos()), "no element store into a slice parameter (or a re-slice of it): the caller's path / hashes are not rewritten", bad == "", bad)
+		}
+		c.MinInstances("C11.R13 calculators-leave-inputs-alone", nCalc, 3)
+	}
 
 	var methods []*ssa.Function
 	for _, fn := range p.Subjects() {
